@@ -415,6 +415,12 @@ def tlv_scenarios(prog, chk, pid, tier):
         dicts.append([((0x0200, 1), a), ((0x0200, 2), 3), ((0x0200, 3), 2), ((0x0201, 1), 1)])
     dicts.append([((0x0101, 1), 200), ((0x0101, 2), 5)])  # an oversize entry in first position
     dicts.append([((0x0101, 1), 5), ((0x0101, 2), 254), ((0x0101, 3), 5)])  # oversize in the middle
+    # insertion order differs from sorted order, deletions inserted between and after assignments
+    dicts.append([((0x0620, 1), 2), ((0x0400, None), None), ((0x0101, 4), 7), ((0x0200, 9), None), ((0x0101, 3), 5), ((0x0100, None), None), ((0x0200, 2), None)])
+    dicts.append([((0x0300, 2), 3), ((0x0300, 1), None), ((0x0101, 9), 1), ((0x0050, None), None)])
+    # assignments of empty content (0 bytes is a legal content) next to deletions that sort after them
+    dicts.append([((0x0101, 1), 0), ((0x0300, 2), None), ((0x0050, 7), 3), ((0x0400, None), None)])
+    dicts.append([((0x0200, 5), 0), ((0x0200, 6), 0), ((0x0200, 7), None)])
     dicts.append([((0x0400 + i, 1), 30) for i in range(9)])
     dicts.append([((0x0500, i), 11) for i in range(1, 30)])
     if tier == "thorough":
@@ -470,6 +476,45 @@ def tlv_scenarios(prog, chk, pid, tier):
         else:
             if ops != want:
                 bad = bad or (label, "decodes to %d operations %s..., the dictionary has %d %s..." % (len(ops), [o[:3] for o in ops[:4]], len(want), [o[:3] for o in want[:4]]))
+    # ---- set_config: the component's content is len||block for every block of conf_dict_to_tlv(config), then the caller's extra blocks framed the
+    # same way and unchanged, then one 00; declared length = content length; marked for encryption
+    fs = prog.method(BF3 + ".Bf3File", "set_config")
+    bad_f = None
+    n_f = 0
+    for dspec_src, cargs in (("{(0x0101, 3): c0, (0x0620, 1): c1, (0x0300, None): None}", {"c0": 5, "c1": 2}), ("{}", {}), ("{(0x0101, 1): c0, (0x0101, 2): c1}", {"c0": 111, "c1": 4})):
+        for extras in ((), (3,), (1, 20)):
+            for form in ("[%s]", "(%s,)", "iter([%s])"):
+                if not extras and form != "[%s]":
+                    continue
+                n_f += 1
+                args = {k: sbytes(R.syms(k + "_", n)) for k, n in cargs.items()}
+                xs = {"x%d" % i: R.syms("x%d_" % i, n) for i, n in enumerate(extras)}
+                args.update({k: sbytes(v) for k, v in xs.items()})
+                extra_src = (form % ", ".join(sorted(xs))) if extras else "()"
+                src = ("def drv(%s):\n    f = Bf3File()\n    f.set_config(%s, %s)\n    c = f.components[-1]\n    return (c.blob, c.actual_len, c.encrypt_by_session_key, conf_dict_to_tlv(%s), len(f.components))\n"
+                       % (", ".join(sorted(args)), dspec_src, extra_src, dspec_src))
+                ex, res = stk.run(BF3, src, args)
+                label = "set_config(%s, %d extra block(s) as %s)" % (dspec_src[:40], len(extras), form % "...")
+                if res.dead or res.ret is None or unsnap(res.ret).op != "tuple":
+                    bad_f = bad_f or (label, "raises")
+                    continue
+                blob, alen, flag, blocks, ncomp = unsnap(res.ret).args[0]
+                got = R.flat(ex, res, blob)
+                bl = ex.iter_items(blocks, res.state)
+                if got is None or bl is None:
+                    bad_f = bad_f or (label, "content is not a definite byte string")
+                    continue
+                want_b = []
+                for b_ in [R.flat(ex, res, x) for x in bl] + [xs[k] for k in sorted(xs)]:
+                    want_b += [C(len(b_))] + list(b_)
+                want_b.append(C(0))
+                if len(got) != len(want_b) or any(a is not b for a, b in zip(got, want_b)):
+                    bad_f = bad_f or (label, "content (%d bytes) is not len||block for the %d TLV blocks and %d extra blocks followed by 00 (%d bytes)" % (len(got), len(bl), len(extras), len(want_b)))
+                elif not (is_const(alen) and cval(alen) == len(want_b)) or not (is_const(flag) and cval(flag) is True) or not (is_const(ncomp) and cval(ncomp) == 1):
+                    bad_f = bad_f or (label, "declared length / encryption flag / component count are %s / %s / %s" % (show(alen, 2), show(flag, 2), show(ncomp, 2)))
+    chk.require(bad_f is None, P("set-config-scenarios"), fs.qualname, "%d calls: dictionaries x extra blocks given as list / tuple / one-shot iterator" % n_f, "%s:%d" % (fs.file, fs.lineno),
+                "the configuration component's content is every TLV block and every extra block prefixed by its length, in order and unchanged, closed by one 00; declared length = content length; encrypt-on-write set",
+                "%s: %s" % bad_f if bad_f else "")
     chk.require(bad is None, P("tlv-scenarios"), fi.qualname, "%d dictionaries (sizes around the 117-byte limit, oversize entries, deletions), symbolic contents" % len(dicts), where,
                 "for every enumerated dictionary no block is empty, every block is at most 117 bytes when each entry fits, and the blocks decode (independent decoder) to exactly the deletions in sorted order followed by the assignments in sorted order, each once with its exact content",
                 "%s: %s" % bad if bad else "")
@@ -489,4 +534,6 @@ def run(prog, chk, tier):
     single_pass_rule(prog, chk, "C10")
     c06.config_component(prog, chk, "C10")
     stackrt.guarded(chk, "C10.tlv-scenarios", tlv_scenarios, prog, chk, "C10", tier)
+    chk.shape_fallback("ordering", ["tlv-scenarios"], "dictionaries with unsorted insertion order and interleaved deletions included")
+    chk.shape_fallback("framing", ["set-config-scenarios"])
     chk.assume("keys 0..0xFFFF, value ids 0..0xFE, contents up to 254 bytes as in the property's quantifier")
